@@ -1385,6 +1385,17 @@ def enrich_start(run):
 
     A = "http://schemas.openxmlformats.org/drawingml/2006/main"
     r = run.rnd
+    if r.random() < 0.25:
+        # XML comments among the children of the deck's elements (a hand-edited or generated deck): they are no elements, every
+        # position python-pptx computes is a position among ELEMENTS
+        run.acc.classes["start-with-xml-comments"] = run.acc.classes.get("start-with-xml-comments", 0) + 1
+        for part in list(run.prs.part.package.iter_parts()):
+            root = getattr(part, "_element", None)
+            if root is None or root.tag not in ("{%s}sld" % P, "{%s}sldLayout" % P, "{%s}presentation" % P) and not root.tag.endswith("}chartSpace"):
+                continue
+            for el in list(root.iter()):
+                if isinstance(el.tag, str) and len(el) and r.random() < 0.3:
+                    el.insert(r.choice([0, 0, len(el)]), etree.Comment(" c "))
     if r.random() < 0.5:
         return
     run.acc.classes["start-enriched-with-extLst"] = run.acc.classes.get("start-enriched-with-extLst", 0) + 1
@@ -1457,5 +1468,5 @@ def inject_id_state(run):
         lst = prs.part._element.find("{%s}sldIdLst" % P)
         if lst is not None and len(lst):
             ids = r.choice([[2147483647], [2147483646, 300], [256], [5000, 257]])
-            for el, v in zip(reversed(list(lst)), ids):
+            for el, v in zip(reversed([x for x in lst if isinstance(x.tag, str)]), ids):
                 el.set("id", str(v))
